@@ -857,6 +857,40 @@ def divide(a, b, **kw): return _bin_kw('truediv', _w(a), b, kw)
 true_divide = divide
 def left_shift(a, b, **kw): return _bin_kw('lshift', _w(a), b, kw)
 def right_shift(a, b, **kw): return _bin_kw('rshift', _w(a), b, kw)
+def _maxmin(op, a, b):
+    """numpy.maximum / minimum: element-wise, NaN propagates; symbolic elements give If(a >= b, a, b)."""
+    a, b = _w(a), _w(b)
+    if not a.sym and not b.sym:
+        with rnp.errstate(all='ignore'):
+            return _from_real((rnp.maximum if op == 'max' else rnp.minimum)(a.typed(), b.typed()))
+    ld = rnp.result_type(a.dtype, b.dtype)
+    xa = a.astype(ld) if a.dtype != ld else a
+    xb = b.astype(ld) if b.dtype != ld else b
+
+    def f(x, y):
+        if E.is_special(x) and x != x:
+            return x
+        if E.is_special(y) and y != y:
+            return y
+        c = E.elem_binop('ge' if op == 'max' else 'le', x, y, ld)
+        if not is_sym(c):
+            return x if c else y
+        return E.ite(c, x, y, ld)
+    return ndarray_impl(_map2(f, xa.c, xb.c), ld)
+
+
+def maximum(a, b, **kw):
+    if kw:
+        raise E.ShimUnsupported(f'maximum keyword arguments {sorted(kw)}')
+    return _maxmin('max', a, b)
+
+
+def minimum(a, b, **kw):
+    if kw:
+        raise E.ShimUnsupported(f'minimum keyword arguments {sorted(kw)}')
+    return _maxmin('min', a, b)
+
+
 def less(a, b): return _binop('lt', _w(a), b)
 def greater(a, b): return _binop('gt', _w(a), b)
 def equal(a, b): return _binop('eq', _w(a), b)
